@@ -35,6 +35,12 @@ func implAsc(b []byte) (r implAudio) {
 	am := codec.AudioMeta{Codec: "AAC", Sps: append([]byte{}, b...)}
 	r.ready = aac.MetadataIsReady(&am)
 	r.channels, r.rate = am.Channels, am.SampleRate
+	empty := codec.AudioMeta{Codec: "AAC"}
+	known := codec.AudioMeta{Codec: "AAC", Sps: append([]byte{}, b...), SampleRate: 7, Channels: 9}
+	if aac.MetadataIsReady(&empty) || (len(b) > 0 && (!aac.MetadataIsReady(&known) || known.SampleRate != 7 || known.Channels != 9)) ||
+		(r.ready && am.SampleSize != 16) {
+		r.outcome = "guards-broken"
+	}
 	return
 }
 
